@@ -600,14 +600,20 @@ class _Mgr:
             if self.yielded:
                 self.bad(s, "second yield")
             self.yielded = True
-            return f"let '(cfg, raised) := body cfg in\n  {self.block(rest, k)}"
+            if getattr(self, "_in_try", False):
+                return f"let '(cfg, raised) := body cfg in\n  {self.block(rest, k)}"
+            # a yield outside try/finally: what follows it runs only when the body did not raise
+            return (f"let '(cfg, raised) := body cfg in\n  if raised then (cfg, raised) else\n  {self.block(rest, k)}")
         if isinstance(s, ast.Try) and not s.handlers and not s.orelse and s.finalbody:
             # try: A finally: F  -- F runs whether or not the body (the yield inside A) raised
             last = s.body[-1]
             if self.yielded or not (isinstance(last, ast.Expr) and isinstance(last.value, ast.Yield)):
                 self.bad(s, "try/finally must end in the (only) yield")
+            self._in_try = True
             inner = self.block(list(s.body), "@@FINALLY@@")
-            return inner.replace("@@FINALLY@@", self.block(list(s.finalbody) + rest, k))
+            self._in_try = False
+            after = k if not rest else f"if raised then (cfg, raised) else\n  {self.block(rest, k)}"
+            return inner.replace("@@FINALLY@@", self.block(list(s.finalbody), after))
         self.bad(s, "statement")
 
     def text(self, cname):
